@@ -4,6 +4,7 @@ Names must match specs/MC_Serialise.tla (checked at start-up)."""
 from __future__ import annotations
 
 import json
+from pathlib import Path
 
 import numpy as np
 
@@ -465,6 +466,117 @@ def _gr_add(g):
     return g
 
 
+# ------------------------------------------------------------------ further registered serialisable kinds
+def make_adb_gff():
+    import tempfile
+
+    from cogent3 import load_annotations
+
+    gff = (
+        "##gff-version 3\n"
+        "s1\tx\tgene\t3\t14\t.\t+\t.\tID=g1;Note=a b\n"
+        "s1\tx\texon\t3\t6\t.\t+\t.\tID=e1;Parent=g1\n"
+        "s1\tx\texon\t10\t14\t.\t+\t.\tID=e1;Parent=g1\n"
+        "s2\ty\tCDS\t1\t3\t.\t-\t0\tID=c1\n"
+    )
+    with tempfile.TemporaryDirectory(dir="/var/tmp") as d:
+        path = Path(d) / "x.gff3"
+        path.write_text(gff)
+        return load_annotations(path=path)
+
+
+def make_adb_gb():
+    from cogent3.core.annotation_db import GenbankAnnotationDb
+
+    db = GenbankAnnotationDb()
+    db.add_feature(seqid="s1", biotype="gene", name="g1", spans=[(2, 6), (9, 14)], strand="+")
+    db.add_feature(seqid="s1", biotype="CDS", name="c1", spans=[(3, 6)], strand="-")
+    return db
+
+
+def make_new_alpha_char():
+    from cogent3.core.new_moltype import get_moltype
+
+    return get_moltype("dna").alphabet
+
+
+def make_new_alpha_kmer():
+    from cogent3.core.new_moltype import get_moltype
+
+    return get_moltype("dna").alphabet.get_kmer_alphabet(2)
+
+
+def make_new_alpha_codon():
+    from cogent3.core.new_genetic_code import get_code
+
+    return get_code(2).get_alphabet()
+
+
+def make_seqview():
+    from cogent3.core.sequence import SeqView
+
+    return SeqView(seq=DNA.replace("-", ""), seqid="s1", offset=3)
+
+
+def seqview_proj(v):
+    # a bare SeqView's rich dict holds the covered segment, seqid and step only (the owning Sequence records the offset):
+    # what it promises is the string, identity, length and orientation
+    return {"str": str(v), "seqid": v.seqid, "len": len(v), "reversed": bool(v.is_reversed), "step": abs(_norm(v.step))}
+
+
+SEQVIEW_OPS = {"slice_mid": lambda v: v[3:16], "reverse": lambda v: v[::-1], "stride2": lambda v: v[::2], "slice_neg": lambda v: v[1:-2]}
+
+
+def make_ns_submodel():
+    from cogent3 import get_model
+
+    return get_model("GN")
+
+
+def make_lf_gn():
+    from cogent3 import get_model, make_aligned_seqs, make_tree
+
+    tree = make_tree("((a:0.1,b:0.2):0.05,c:0.3,d:0.15)")
+    aln = make_aligned_seqs({k: v.replace("R", "A") for k, v in ALN.items()}, moltype="dna")
+    lf = get_model("GN").make_likelihood_function(tree)
+    lf.set_alignment(aln)
+    return lf
+
+
+def _lf_gn_term(lf):
+    lf.set_param_rule("A>G", init=2.5)
+    lf.set_param_rule("C>T", edges=["a", "b"], is_independent=False, init=0.4)
+    return lf
+
+
+def make_hyp_result():
+    from cogent3 import get_app, make_aligned_seqs
+
+    aln = make_aligned_seqs({k: v.replace("R", "A") for k, v in ALN.items() if k != "d"}, moltype="dna", info={"source": "x.fa"})
+    opt = dict(max_evaluations=8, limit_action="ignore")
+    m0 = get_app("model", "F81", opt_args=opt, show_progress=False)
+    m1 = get_app("model", "HKY85", opt_args=opt, show_progress=False)
+    return get_app("hypothesis", m0, m1)(aln)
+
+
+def hyp_result_proj(r):
+    return {"type": type(r).__name__, "LR": round(float(r.LR), 7), "df": r.df, "null": round(float(r.null.lnL), 7), "alt": round(float(r.alt.lnL), 7), "source": getattr(r, "source", None), "keys": sorted(str(k) for k in r.keys())}
+
+
+def make_tab_result():
+    from cogent3.app.result import tabular_result
+
+    r = tabular_result(source="x.fa")
+    r["counts"] = make_table_()
+    r["dists"] = make_dists()
+    return r
+
+
+def tab_result_proj(r):
+    r.deserialised_values()
+    return {"source": r.source, "keys": sorted(r.keys()), "counts": table_proj(r["counts"]) if hasattr(r["counts"], "header") else repr(type(r["counts"])), "dists": darr_proj(r["dists"]) if hasattr(r["dists"], "template") else repr(type(r["dists"]))}
+
+
 KINDS = {
     # kind: (factory, ops, projection)
     "seq_old": (make_seq_old, SEQ_OPS, seq_proj),
@@ -486,6 +598,16 @@ KINDS = {
     "lf_rate_free": (lambda: _make_lf_bins("free", 2, True), LFB_FREE_OPS, lf_bins_proj),
     "lf_rate_gamma": (lambda: _make_lf_bins("gamma", 3, True), LFB_GAMMA_OPS, lf_bins_proj),
     "lf_site_hmm": (lambda: _make_lf_bins("gamma", 2, False), LFB_HMM_OPS, lf_bins_proj),
+    "annotation_db_gff": (make_adb_gff, {"add": _adb_add, "subset": ADB_OPS["subset"]}, adb_proj),
+    "annotation_db_gb": (make_adb_gb, {"add": _adb_add, "subset": ADB_OPS["subset"]}, adb_proj),
+    "seqview": (make_seqview, SEQVIEW_OPS, seqview_proj),
+    "lf_gn": (make_lf_gn, {"term": _lf_gn_term, "optimise": _lf_opt, "mprobs": _lf_mprobs}, lf_proj),
+    "ns_submodel": (make_ns_submodel, {}, static_proj),
+    "new_alphabet_char": (make_new_alpha_char, {}, static_proj),
+    "new_alphabet_kmer": (make_new_alpha_kmer, {}, static_proj),
+    "new_alphabet_codon": (make_new_alpha_codon, {}, static_proj),
+    "hypothesis_result": (make_hyp_result, {}, hyp_result_proj),
+    "tabular_result": (make_tab_result, {}, tab_result_proj),
     "submodel": (make_submodel, {}, static_proj),
     "codon_model": (make_codon_model, {}, static_proj),
     "moltype": (make_moltype, {}, static_proj),
